@@ -521,7 +521,7 @@ Proof.
   destruct (inject_flush_or_push_output s x) as [[[s1 x1]|]| | |] eqn:Einj; try discriminate.
   - eapply IH; [|exact Hrun]. eapply acct_inject; eassumption.
   - destruct (negb (avail_out_ s =? 0)); [inversion Hrun; subst; exact Hk|].
-    destruct (negb (input_pos s =? last_flush_pos s)).
+    destruct (negb (input_pos s =? last_flush_pos s) || (magic s && first_pending s)).
     + destruct (encode_data s false true) as [[[|] s2]| | |] eqn:Eenc; try discriminate.
       * pose proof (encode_data_total _ _ _ _ _ Eenc) as Et.
         eapply IH; [|exact Hrun]. destruct Hk as [A B]. unfold acct. rewrite Et. split; assumption.
